@@ -249,7 +249,7 @@ func (x *opFunction) Do(currentData, originalData any) (dataToUse any, err error
 		if err != nil {
 			return nil, fmt.Errorf("issue with path parameter: %w", err)
 		}
-		switch resType := res.(type) {
+		switch resType := normalizeValue(res).(type) {
 		case decimal.Decimal:
 			rtParams = append(rtParams, &FP_Number{resType})
 		case string:
@@ -279,10 +279,6 @@ func (x *opFunction) Do(currentData, originalData any) (dataToUse any, err error
 		case []any:
 			for _, pv := range resType {
 				switch pvType := pv.(type) {
-				case float64:
-					rtParams = append(rtParams, &FP_Number{decimal.NewFromFloat(pvType)})
-				case int:
-					rtParams = append(rtParams, &FP_Number{decimal.NewFromInt(int64(pvType))})
 				case decimal.Decimal:
 					rtParams = append(rtParams, &FP_Number{pvType})
 				case string:
@@ -298,7 +294,7 @@ func (x *opFunction) Do(currentData, originalData any) (dataToUse any, err error
 		}
 	}
 
-	currentData = convertToDecimalIfNumber(currentData)
+	currentData = convertToDecimalIfNumber(normalizeValue(currentData))
 
 	funcToRun, ok := funcMap[x.FunctionType]
 	if !ok {
